@@ -619,6 +619,14 @@ func qkey(consumer string, height int64, oracle bool, txHash string) string {
 	return fmt.Sprintf("%s|%d|%v|%s", consumer, height, oracle, strings.ToLower(txHash))
 }
 
+// Restarted (mc.RestartAware): the chain was restarted from its own exported genesis. The module's genesis
+// carries the pending requests only — numbers generated before are not exported, by design —, so the reference
+// forgets the stored numbers; every waiting request must still get its number in the block after its due height.
+func (d *Driver) Restarted(e *mc.Env, s *mc.State) {
+	m := s.Model.(*model)
+	m.vals = map[string]string{}
+}
+
 func (d *Driver) Check(e *mc.Env, s *mc.State) []mc.Finding {
 	m := s.Model.(*model)
 	var fs []mc.Finding
